@@ -199,7 +199,7 @@ def scan_assumptions(genpath):
     return inv, sorted(set(items)), sorted(set(ext))
 
 
-def process_unit(unit, seed=None, rlimit=None):
+def process_unit(unit, seed=None, rlimit=None, reseed=0):
     """Extract + verify one unit.  Returns a dict with status in {'ok','failed','undecided'}."""
     r = dict(unit=unit, status='ok', failures=[], undecided=[], functions={}, labels={}, meta=None, wall=0.0)
     try:
@@ -253,11 +253,11 @@ def process_unit(unit, seed=None, rlimit=None):
                         continue
                     out[(c2['fn'], c2['kind'], c2['line'])] = c2
             return out
-        v2 = run_verus(path, rlimit=(rlimit or 10) * 4, seed=(seed or 0) + 7919)
+        v2 = run_verus(path, rlimit=(rlimit or 10) * 4, seed=(reseed or 0) + 7919)
         r['wall'] += v2['wall']
         k2 = sem(v2)
         if only_rlimit:
-            v3 = run_verus(path, rlimit=(rlimit or 10) * 4, seed=(seed or 0) + 104729)
+            v3 = run_verus(path, rlimit=(rlimit or 10) * 4, seed=(reseed or 0) + 104729)
             r['wall'] += v3['wall']
             k3 = sem(v3)
             r['undecided'] = []
@@ -419,7 +419,9 @@ def main_(argv):
         want = [u for u in want if re.search(r'\[' + pid + r'\.', open(os.path.join(VERIF, 'contracts', u + '.rs.in')).read()) or
                 any(re.search(r'\[' + pid + r'\.', open(p).read()) for p in included(u))]
     with concurrent.futures.ThreadPoolExecutor(max_workers=8) as ex:
-        units = list(ex.map(lambda u: process_unit(u, seed=seed if seed else None), want))
+        # the deciding run always uses the solver's default seed (deterministic verdict); VERIF_SEED only perturbs the
+        # re-runs of the brittleness filter
+        units = list(ex.map(lambda u: process_unit(u, seed=None, reseed=seed), want))
     if a.update_baseline:
         base = {}
         for u in units:
@@ -440,6 +442,23 @@ def main_(argv):
     known = load_known_findings()
     baseline = load_baseline()
     violations, knowns, undec, stats = decide(pid, units, known, baseline)
+    # thorough tier: vacuity sweep - every function under contract that serves this property, with `ensures false` added
+    # to that function alone, must FAIL (a contradictory precondition or an unreachable body would verify it)
+    sweep = {}
+    if a.tier == 'thorough' and not violations:
+        import vacuity
+        for u in units:
+            if u['status'] != 'ok' or not u.get('path'):
+                continue
+            fns = sorted(set(k.split('|')[0] for k in u['labels'] if (pid == 'C06' or k.split('|')[1].split('.')[0] == pid)))
+            fns = [f for f in fns if f != '<lemma/prelude>']
+            if not fns:
+                continue
+            res = vacuity.sweep_path(u['path'], u['meta'], only=fns)
+            for f, (ok, msg) in res.items():
+                sweep['%s:%s' % (u['unit'], f)] = ok
+                if not ok:
+                    undec.append('vacuity guard: %s in unit %s verifies `ensures false` (or could not be checked): %s' % (f, u['unit'], msg[-200:].replace('\n', ' ')))
     kres = kani_phase(pid, a.tier, units)
     kani_viol = []
     for r in kres:
@@ -467,6 +486,7 @@ def main_(argv):
                                         smt=dict((k, v) for k, v in sorted(u.get('functions', {}).items())),
                                         assumption_scan=u.get('assumption_scan', {}).get('counts')) for u in units],
                             kani=[dict((k, v) for k, v in r.items() if k not in ('tail',)) for r in kres],
+                            vacuity_sweep=dict(functions=len(sweep), all_fail_as_required=all(sweep.values()) if sweep else None),
                             undecided=undec, known_findings=[k[0]['text'] for k in knowns]),
               assumptions=open(os.path.join(VERIF, 'contracts', 'ASSUMPTIONS.txt')).read().strip().split('\n') if os.path.exists(os.path.join(VERIF, 'contracts', 'ASSUMPTIONS.txt')) else [])
     evdir = os.path.join(VERIF, 'evidence') if os.environ.get('REPO', '/repo') == '/repo' else os.path.join(VERIF, 'gen', 'evidence-scratch')
